@@ -748,6 +748,8 @@ pub struct Ics20Scen {
     /// native denom of the form `xcw20:<token0>`
     xdenom: String,
     header_denoms: Option<Vec<String>>,
+    /// generator (wide): this trace fills one channel with the wide coins
+    fill: bool,
     /// the channel ids of the trace header (observations cover exactly these)
     header_chans: Vec<String>,
     /// `ics20wide`: further addresses for the allow list (C20)
@@ -774,6 +776,7 @@ impl Ics20Scen {
             seed: 0,
             xdenom: String::new(),
             header_denoms: None,
+            fill: false,
             header_chans: vec![],
             extra: vec![],
             wide: false,
@@ -847,6 +850,14 @@ impl Ics20Scen {
             let amount = vec![coin(if *a == reserve { FUND * 16 } else { FUND }, self.xdenom.clone())];
             app.sudo(SudoMsg::Bank(BankSudo::Mint { to_address: a.to_string(), amount })).unwrap();
         }
+        // wide: 32 further native coins, so that one channel can come to hold more than 30 denominations (the
+        // `Channel {id}` query lists a channel's balances without paging)
+        if self.wide {
+            for a in pool.iter().chain(std::iter::once(&reserve)) {
+                let amount: Vec<Coin> = wide_denoms().iter().map(|d| coin(if *a == reserve { FUND * 16 } else { FUND }, d.clone())).collect();
+                app.sudo(SudoMsg::Bank(BankSudo::Mint { to_address: a.to_string(), amount })).unwrap();
+            }
+        }
         self.app = app;
         self.pool = pool;
         self.tokens = tokens;
@@ -906,6 +917,9 @@ impl Ics20Scen {
         }
         let mut v: Vec<String> = DENOMS.iter().map(|d| d.to_string()).collect();
         v.push(self.xdenom.clone());
+        if self.wide {
+            v.extend(wide_denoms());
+        }
         v
     }
 
@@ -1425,6 +1439,11 @@ impl Ics20Scen {
     }
 }
 
+/// `ics20wide`: the 32 further native coins `utok00` … `utok31`
+fn wide_denoms() -> Vec<String> {
+    (0..32).map(|i| format!("utok{i:02}")).collect()
+}
+
 impl Scenario for Ics20Scen {
     fn start(&mut self, seed: u64, trace: u64) -> String {
         self.header_denoms = None;
@@ -1449,11 +1468,14 @@ impl Scenario for Ics20Scen {
             FUND
         );
         self.seed = seed;
+        self.fill = trace % 3 != 1;
         header
     }
 
     fn reset(&mut self, header: &str) {
         let a = Args::parse(header);
+        self.extra = a.list("extra").into_iter().map(Addr::unchecked).collect();
+        self.wide = !self.extra.is_empty();
         self.setup();
         self.seed = a.u64("seed");
         let ds = a.list("denoms");
@@ -1478,6 +1500,15 @@ impl Scenario for Ics20Scen {
             self.legacy = false;
             let gas = if rng.chance(1, 2) { "-".to_string() } else { self.gen_gas(rng) };
             return format!("migrate gas={gas}");
+        }
+        if self.wide && self.fill && !conn.is_empty() && rng.chance(3, 4) {
+            // fill story (two traces of three): one unit of each wide coin over the first connected channel, one after the other
+            let chan = conn[0].clone();
+            let have: Vec<String> = self.channel(&chan).unwrap_or_default().iter().map(|e| e.0.clone()).collect();
+            if let Some(d) = wide_denoms().into_iter().find(|d| !have.contains(d)) {
+                let snd = self.pool[0].clone();
+                return format!("exec {snd} transfer funds={}|{d} chan={chan} to=remote0 timeout=- memo=-", 1 + rng.below(3));
+            }
         }
         if self.wide && rng.chance(6, 10) {
             let listed: Vec<String> = {
